@@ -653,6 +653,39 @@ def rule_registry(rep, repo, mod):
             "register/lookup-by-__name__",
             "Registry.register(cls) followed by lookup(cls.__name__) yields "
             "%r" % (got,), loc=rc.loc())
+  # registries are isolated from one another: what a second Registry()
+  # registers - even under a quantizer's name - is invisible to the first
+  pe2 = PE(repo)
+  try:
+    r1 = pe2.call(ClassRef(rc), [], {})
+    pe2.call(pe2.getattr(r1, "register"), [probe], {})
+    r2 = pe2.call(ClassRef(rc), [], {})
+    foreign = ClassRef(mod.classes["quantized_relu"])
+    pe2.call(pe2.getattr(r2, "register"), [foreign], {
+        "name": "quantized_bits"})
+    got1 = pe2.call(pe2.getattr(r1, "lookup"), ["quantized_bits"], {})
+    got2 = pe2.call(pe2.getattr(r2, "lookup"), ["quantized_bits"], {})
+    try:
+      leaked = pe2.call(pe2.getattr(r2, "lookup"), ["quantized_relu"], {})
+    except PyRaise:
+      leaked = None
+    r3 = pe2.call(ClassRef(rc), [], {})
+    try:
+      fresh = pe2.call(pe2.getattr(r3, "lookup"), ["quantized_bits"], {})
+    except PyRaise:
+      fresh = None
+    rep.check(got1 is probe and got2 is foreign and leaked is None and
+              fresh is None, "R5", "%s::Registry" % base.relpath,
+              "registries-share-state",
+              "after a second Registry() registered another object under "
+              "the name 'quantized_bits' the first one resolves the name to "
+              "%r (expected its own entry), the second to %r, and a third, "
+              "fresh registry to %r (expected nothing)" % (got1, got2,
+                                                           fresh),
+              loc=rc.loc())
+  except PyRaise as e:
+    rep.fail("R5", "%s::Registry" % base.relpath, "registry-raises",
+             "two registries: raises %s" % e, loc=rc.loc())
   # quantizer_imports re-exports exactly the registered names
   exported = sorted(n for n, t in imp.imports.items()
                     if t.startswith("qkeras.quantizers."))
